@@ -35,9 +35,9 @@ def results_space(tier: str):
         else:
             add("gen:C01", sqlgen.render(st, sqlgen.R(dialect="postgres")), "postgres")
     C = sqlgen.CENTRES
-    plan = [("simple", C["simple"], D), ("join", C["join"], 1), ("derived", C["derived"], 1), ("cte", C["cte"], 1), ("star", C["star"], 1)]
+    plan = [("simple", C["simple"], D), ("join", C["join"], 1), ("derived", C["derived"], 1), ("cte", C["cte"], 1), ("star", C["star"], 1), ("setop", C["setop"], 1)]
     if tier != "quick":
-        plan = [("simple", C["simple"], 3), ("join", C["join"], 2), ("derived", C["derived"], 2), ("cte", C["cte"], 2), ("star", C["star"], 2)]
+        plan = [("simple", C["simple"], 3), ("join", C["join"], 2), ("derived", C["derived"], 2), ("cte", C["cte"], 2), ("star", C["star"], 2), ("setop", C["setop"], 2)]
     for sql, (st, trace, ndev, centre) in enumerate_plan(plan, 2)[0]:
         if st["kind"] == "select_into" or "item:pgcast" in sqlgen.features(st):
             add("gen:C02", sqlgen.render(st, sqlgen.R(dialect="postgres")), "postgres")
